@@ -97,7 +97,18 @@ def jobs(pid, tier, seed):
 
 
 NAME_SCHEMES = [("relay.sqlite", "usage.sqlite"), ("relay.sqlite", "relay.sqlite.usage"), ("wormhole.db.channels", "wormhole.db"),
-                ("db", "db-usage"), ("mailbox.db", "mailbox.db.usage.sqlite"), ("x.sqlite.tmp", "x.sqlite")]
+                ("db", "db-usage"), ("mailbox.db", "mailbox.db.usage.sqlite"), ("x.sqlite.tmp", "x.sqlite"),
+                # characters that mean something in URIs, globs, format strings and shells are just characters in a path
+                ("data#2/relay.sqlite", "data#2/usage.sqlite"), ("q?x=1/r%41.sqlite", "q?x=1/u%41.sqlite"),
+                ("sp ace/re[l]ay*.sqlite", "sp ace/us{a}ge'.sqlite")]
+
+
+def _tree(base):
+    out = []
+    for d, _, fs in os.walk(base):
+        for f in fs:
+            out.append(os.path.relpath(os.path.join(d, f), base))
+    return sorted(out)
 
 
 def run_service_start(job, acc):
@@ -112,6 +123,8 @@ def run_service_start(job, acc):
     case = "service:%s" % sorted(job.items())
     try:
         cpath, upath = os.path.join(base, cname), os.path.join(base, uname)
+        for pth in (cpath, upath):
+            os.makedirs(os.path.dirname(pth), exist_ok=True)
         if job["chan"] == "valid":
             make_valid(database, "channel", cpath, r, nrows=6)
         if job["usage"] == "valid":
@@ -127,7 +140,7 @@ def run_service_start(job, acc):
             c.commit()
             c.close()
         others = {}
-        for f in (cname + ".bak", uname + ".bak", "unrelated.txt", cname + "-old", "notes." + cname):
+        for f in (cname + ".bak", uname + ".bak", "unrelated.txt", cname + "-old", os.path.join(os.path.dirname(cname), "notes." + os.path.basename(cname))):
             fp = os.path.join(base, f)
             if not os.path.exists(fp):
                 open(fp, "wb").write(b"other file " + f.encode())
@@ -150,7 +163,11 @@ def run_service_start(job, acc):
         acc.cases += 1
         acc.distinct.add(case)
         if exc is not None:
-            return viol(acc, case, "the service does not start on valid / absent database files", {"exc": repr(exc)[:300], "listing": sorted(os.listdir(base))})
+            return viol(acc, case, "the service does not start on valid / absent database files", {"exc": repr(exc)[:300], "listing": _tree(base)})
+        expected = set(others) | {cname, uname} | ({uname + "-backup-v1"} if job["usage"] == "v1" else set())
+        stray = [f for f in _tree(base) if f not in expected and not f.endswith(("-journal", "-wal", "-shm"))]
+        if stray:
+            return viol(acc, case, "starting the service created files other than the two databases", {"stray": stray[:5]})
         for f, data in others.items():
             acc.ev["c19_sibling_file_checked"] += 1
             fp = os.path.join(base, f)
